@@ -18,20 +18,27 @@ static const char* FMTS[5] = {NULL, "fasta", "msf", "clu", "xyz"};
 enum { IN_DNA, IN_PROT, IN_MISSING, IN_DIR, IN_EMPTY, IN_SINGLE, NIN };
 enum { OUT_FILE, OUT_BADDIR, OUT_STDOUT, OUT_DEVFULL, NOUT };   /* /dev/full: the path opens, every write fails (disk full) */
 
-struct ocase { int type, gpo, gpe, tgpe, nth, fmt, in, out; int fault_k; int fault_shape; };
+struct ocase { int type, gpo, gpe, tgpe, nth, fmt, in, out; int fault_k; int fault_shape; int extra; };
 
 #define NP1 (8 * NIN * NOUT * 5)
 #define NP2 (6 * 3 * 3 * 7 * 2)
 #define NFULL (8 * 6 * 3 * 3 * 7 * 5 * NIN * NOUT)
 #define NFAULT (3 * 3 * 12)     /* 3 formats x 3 input shapes x k = 1..12 (k beyond the calls made is skipped) */
+#define NEXTRA 6        /* two good files plus a file without any sequence (0 bytes / blank lines only) as first, middle or last input */
 
-uint64_t vh_total(int tier) { return (tier ? (uint64_t)NFULL : (uint64_t)(NP1 + NP2)) + NFAULT; }
+uint64_t vh_total(int tier) { return (tier ? (uint64_t)NFULL : (uint64_t)(NP1 + NP2)) + NFAULT + NEXTRA; }
 
 static void decode(uint64_t id, int tier, struct ocase* c)
 {
         uint64_t nopt = tier ? (uint64_t)NFULL : (uint64_t)(NP1 + NP2);
         memset(c, 0, sizeof *c);
         c->fault_k = 0;
+        if(id >= nopt + NFAULT){
+                c->extra = (int)(id - nopt - NFAULT) + 1;
+                c->in = IN_DNA;
+                c->out = OUT_FILE;
+                return;
+        }
         if(id >= nopt){
                 id -= nopt;
                 c->fault_k = (int)(id % 12) + 1;
@@ -68,8 +75,8 @@ static void decode(uint64_t id, int tier, struct ocase* c)
         }
 }
 
-static char P_DNA[400], P_DNA2[400], P_PROT[400], P_MISSING[400], P_DIR[400], P_EMPTY[400], P_SINGLE[400], P_OUT[400], P_BADOUT[400], P_STDIN[400];
-static struct kx_set IN_SET[2];
+static char P_DNA[400], P_DNA2[400], P_PROT[400], P_MISSING[400], P_DIR[400], P_EMPTY[400], P_SINGLE[400], P_OUT[400], P_BADOUT[400], P_STDIN[400], P_BLANK[400];
+static struct kx_set IN_SET[2], IN_SET5;
 
 void vh_init(int tier)
 {
@@ -85,6 +92,14 @@ void vh_init(int tier)
         snprintf(P_BADOUT, sizeof P_BADOUT, "%s/no-such-dir/out.aln", vh_tmpdir);
         snprintf(P_STDIN, sizeof P_STDIN, "%s/stdin.fa", vh_tmpdir);
         mkdir(P_DIR, 0700);
+        snprintf(P_BLANK, sizeof P_BLANK, "%s/blank.fa", vh_tmpdir);
+        vh_write_file(P_BLANK, "\n\n", 2);
+        kx_set_init(&IN_SET5);
+        kx_set_add(&IN_SET5, "ACGTACGTTG", "d1");
+        kx_set_add(&IN_SET5, "ACGACGTTG", "d2");
+        kx_set_add(&IN_SET5, "ACGTACTTG", "d3");
+        kx_set_add(&IN_SET5, "ACGTACGTT", "d4");
+        kx_set_add(&IN_SET5, "CGTACGTTG", "d5");
         kx_set_init(&IN_SET[0]);
         kx_set_add(&IN_SET[0], "ACGTACGTTG", "d1");
         kx_set_add(&IN_SET[0], "ACGACGTTG", "d2");
@@ -148,6 +163,20 @@ static void cmdline(const struct ocase* c, char** argv, int* n, const char** std
         if(GPX[c->tgpe]){ argv[k++] = "--tgpe"; argv[k++] = (char*)GPX[c->tgpe]; }
         if(NTH[c->nth]){ argv[k++] = "-n"; argv[k++] = (char*)NTH[c->nth]; }
         if(FMTS[c->fmt]){ argv[k++] = "--format"; argv[k++] = (char*)FMTS[c->fmt]; }
+        if(c->extra){
+                /* kalign -i f1 f2 f3 -o out: the two good files in order, the sequence-free file at position (extra-1) % 3 */
+                const char* e = (c->extra - 1) / 3 ? P_BLANK : P_EMPTY;
+                int pos = (c->extra - 1) % 3, j, g = 0;
+                argv[k++] = "-i";
+                for(j = 0; j < 3; j++){
+                        argv[k++] = (char*)(j == pos ? e : (g++ ? P_DNA2 : P_DNA));
+                }
+                argv[k++] = "-o";
+                argv[k++] = P_OUT;
+                argv[k] = NULL;
+                *n = k;
+                return;
+        }
         argv[k++] = "-i";
         argv[k++] = (char*)inpath[c->in];
         if(c->fault_k){
@@ -224,7 +253,7 @@ int vh_case(uint64_t id, int tier)
                 type_ok = 0;
         }
         expect_ok = type_ok && (c.fmt != 4) && (c.nth == 0 || c.nth == 3 || c.nth == 4 || c.nth == 5) && (c.in == IN_DNA || c.in == IN_PROT) &&
-                    c.out != OUT_BADDIR && c.out != OUT_DEVFULL && !c.fault_k;
+                    c.out != OUT_BADDIR && c.out != OUT_DEVFULL && !c.fault_k && !c.extra;
         must_fail = (c.in == IN_MISSING || c.in == IN_DIR || c.in == IN_EMPTY || c.in == IN_SINGLE || c.out == OUT_BADDIR || c.out == OUT_DEVFULL || c.fault_k ||
                      c.fmt == 4 || c.type == 7);
         if(res.status == 0){
@@ -248,8 +277,8 @@ int vh_case(uint64_t id, int tier)
                                 vh_fail("sem:cli-output-unparsable", "exit 0 but the %s output cannot be parsed: %s", c.out == OUT_STDOUT ? "standard" : "file", a.err);
                         }else if(!c.fault_k){
                                 char why[300];
-                                if(kx_check_alignment(&IN_SET[c.in == IN_PROT], a.n, a.row, a.name, a.n ? (int)strlen(a.row[0]) : 0, why, sizeof why)){
-                                        vh_fail("sem:cli-invalid-alignment", "exit 0 but the output is not a valid alignment of the input: %s", why);
+                                if(kx_check_alignment(c.extra ? &IN_SET5 : &IN_SET[c.in == IN_PROT], a.n, a.row, a.name, a.n ? (int)strlen(a.row[0]) : 0, why, sizeof why)){
+                                        vh_fail(c.extra ? "sem:cli-sequences-of-a-named-file-dropped" : "sem:cli-invalid-alignment", "exit 0 but the output is not a valid alignment of the input: %s", why);
                                 }else{
                                         vh_count("nontrivial_successful_cli_runs");
                                 }
